@@ -456,7 +456,21 @@ impl Message {
         let flavor = focus.flavors[rng.weighted(&focus.flavors.iter().map(|a| a.1).collect::<Vec<_>>())].0;
         let bytes = apps::gen(app, flavor, over_tcp, rng);
         let segment = over_tcp && rng.below(1000) < focus.segment_pm;
-        let cuts = gen_cuts(rng, bytes.len(), segment, app);
+        let mut cuts = gen_cuts(rng, bytes.len(), segment, app);
+        if over_tcp && bytes.len() > 1400 {
+            // a sender cannot put more than its segment size into one segment
+            let mss = *rng.pick(&[536usize, 1220, 1460, 1460, 4000]);
+            let mut k = mss;
+            while k < bytes.len() {
+                cuts.push(k);
+                k += mss;
+            }
+            cuts.sort();
+            cuts.dedup();
+            if cuts.len() > 140 {
+                cuts.truncate(140);
+            }
+        }
         Message {
             app,
             flavor,
